@@ -57,6 +57,61 @@ def translate_archiver():
     return caf, m2.group(1) == "||"
 
 
+def type_names():
+    """the table typeNames[] of Archiver.cpp (the words TypeError::what() promises), or None"""
+    try:
+        src = open(os.path.join(vlib.REPO, "src", "Script", "Archiver.cpp")).read()
+    except OSError:
+        return None
+    m = re.search(r"typeNames\s*\[\s*\]\s*=\s*\{(.*?)\}\s*;", src, re.S)
+    return re.findall(r'"([^"]*)"', m.group(1)) if m else None
+
+
+MSG_FIXED = {"InvalidArchiveHeader": "Archive has bad header.", "ReadStreamFail": "Failure in read stream",
+             "ReadPastEndObject": "Object read past end of object's data", "NotReadEntireDataObject": "Object didn't read entire data from file",
+             "MissingReadStream": "Couldn't read data as there is no read stream", "MissingWriteStream": "Couldn't write data as there is no write stream",
+             "WriteStreamFail": "Failure in write stream"}
+
+
+def bad_message(out, names):
+    """out = 'err <Kind> [args] |msg=<hex>...' -> None when the reported text is what the error promises, else a description"""
+    m = re.search(r"\|msg=(\S+)", out)
+    w = out.split()
+    if not m:
+        return "no message was obtained"
+    if m.group(1) == "NULL":
+        return "what() returned a null pointer"
+    try:
+        text = b"" if m.group(1) == "-" else bytes.fromhex(m.group(1))
+    except ValueError:
+        return "unreadable message"
+    kind = w[1] if len(w) > 1 else "?"
+    if not text:
+        return "what() returned an empty text"
+    if kind == "TypeError":
+        try:
+            exp, found = int(w[2], 16), int(w[3], 16)
+        except (IndexError, ValueError):
+            return "malformed outcome"
+        if names is None:
+            ok = re.fullmatch(rb"Expecting \w+, found (\w+|\d+ \(unknown type\))", text) is not None
+            want = "Expecting <type>, found <type> | <n> (unknown type)"
+        else:
+            en = names[exp] if exp < len(names) else "?"
+            want = "Expecting %s, found %s" % (en, names[found] if found < len(names) else "%d (unknown type)" % found)
+            ok = text == want.encode()
+        return None if ok else "TypeError(%d, %d) says %r, expected %r" % (exp, found, text, want)
+    if kind in MSG_FIXED:
+        return None if text == MSG_FIXED[kind].encode() else "%s says %r, expected %r" % (kind, text, MSG_FIXED[kind])
+    if kind == "WrongVersion":
+        return None if re.fullmatch(rb"Wrong archive version\. Got engine version \d+ and program version \d+\. \(expected \d+ and \d+\)?", text) else "WrongVersion says %r" % text
+    if kind == "InvalidClass":
+        return None if text.startswith(b"Invalid class '") and text.endswith(b"'") else "InvalidClass says %r" % text
+    if kind == "ObjectClassError":
+        return None if re.fullmatch(rb"Archive has '.*' object, but was expecting a '\w+' object\.", text, re.S) else "ObjectClassError says %r" % text
+    return None
+
+
 def regenerate():
     caf, vor = translate_archiver()
     txt = ("(* C11/Generated.v - GENERATED by props/C11.py from /repo/src/Script/Archiver.cpp; do not edit.\n"
@@ -231,6 +286,17 @@ class C11(vlib.HistoryProp):
                 for v in vals:
                     fl, cl = self.flag_of([(p, v)], data, lay)
                     ops.append("S %d:%02x %s %s" % (p, v, fl, cl))
+            # every type tag: the found tag at the edge of the type table (Max-1, Max, Max+1), 255, and 32-bit values with high bytes set
+            run = 0
+            for p in range(n):
+                run = run + 1 if lay[p] == "T" else 0
+                if lay[p] == "T" and run % 4 == 1 and p + 3 < n:
+                    for subs in ([(p, 0x11)], [(p, 0x12)], [(p, 0x13)], [(p, 0xff)], [(p, 0x12), (p + 3, 0x80)], [(p + 1, 0x01)],
+                                 [(p, 0xff), (p + 1, 0xff), (p + 2, 0xff), (p + 3, 0xff)], [(p + 3, 0x7f)]):
+                        subs = [(q, v) for q, v in subs if data[q] != v]
+                        if subs:
+                            fl, cl = self.flag_of(subs, data, lay)
+                            ops.append("S %s %s %s" % (",".join("%d:%02x" % x for x in subs), fl, cl))
             if inpos:
                 for _ in range(20 if tier == "quick" else 200):
                     ps = rng.sample(inpos, min(len(inpos), rng.choice([2, 2, 3, 4, 5])))
@@ -275,6 +341,7 @@ class C11(vlib.HistoryProp):
         return None
 
     destroy_hits = 0
+    names = None
 
     def canon_impl(self, lines):
         m = [l[2:] for l in lines if l.startswith("m ")]
@@ -285,6 +352,12 @@ class C11(vlib.HistoryProp):
                 fixed.append(a)
                 continue
             op, out = a.split(" => ", 1)
+            if out.startswith("err "):
+                why = bad_message(out, self.names)
+                if why:
+                    direct.append("the archive error of (%s) is not reported properly: %s" % (op, why))
+                out = re.sub(r" \|msg=\S+", "", out)
+                a = op + " => " + out
             d = self.demand(op.split())
             if "!destroy" in out:
                 if finding_text("C11:partially-loaded-script-variable-crashes-when-destroyed"):
@@ -316,6 +389,8 @@ class C11(vlib.HistoryProp):
                     d = self.demand(o.split())
                     if "!destroy" in out:
                         return "C11:partially-loaded-script-variable-crashes-when-destroyed"
+                    if out.startswith("err ") and bad_message(out, self.names):
+                        return "C11:archive-error-message"
                     if (d == "err" and not out.startswith("err ")) or (d == "oksame" and out != "ok same"):
                         op = o.split()
                         break
@@ -365,6 +440,8 @@ def check(res, tier, seed):
                         "random multi-byte damages over those positions; compared: outcome class and error kind; demanded: an archive error (or 'read as intact' for a class name that only changed case); "
                         "non-trivial = an archive with >= 2 different error kinds")
     HP.destroy_hits = 0
+    HP.names = type_names()
+    res.notes.append("typeNames[] read from Archiver.cpp: %s" % (HP.names if HP.names else "NOT FOUND (messages only checked for their form)"))
     vlib.history_check(res, HP, tier, seed)
     if HP.destroy_hits:
         res.known_finding("signature=C11:partially-loaded-script-variable-crashes-when-destroyed occurrences=%d : %s" % (
